@@ -80,6 +80,12 @@ def _exact_case(draw, tier):
     if not methods:
         spec["sde_type"] = "ito"
         methods = ["euler"]
+    if draw(st.sampled_from([False, False, True])):
+        # a state-independent diffusion returned as one stored tensor: every variant (also derivative-free Milstein, whose
+        # correction vanishes) must then equal y + f h + g dW exactly, and must leave that tensor alone
+        spec["gstored"] = True
+        if "milstein" in methods:
+            methods.append("milstein+grad_free")
     return {"kind": "exact", "spec": spec, "method": draw(st.sampled_from(methods)),
             "h": draw(st.sampled_from([0.5, 0.1, 0.013, 2.0 ** -7])), "t0": draw(st.sampled_from([0.0, 0.7, -0.3])),
             "seed": draw(st.integers(0, 2 ** 31 - 1))}
@@ -96,6 +102,22 @@ def enumerate_cases(tier):
         g = [[0.8, "lin_t", "1"], [0.5, "cos_t", "1"]] if additive else [[0.8, "1", "cos"], [0.3, "cos_t", "y"]]
         yield {"kind": "taylor", "combo": combo, "f": [[-0.7, "1", "sin"], [0.5, "sin_t", "y"]], "g": g, "t0": 0.3,
                "y0": 0.4}
+    # exact clause with a stored, state-independent diffusion: every (noise type, calculus, Euler / Milstein / derivative-free
+    # Milstein) cell once
+    import os
+    import random
+    seed = int(os.environ.get("VERIF_SEED", "1") or 1)
+    idx = 0
+    for nt in ("diagonal", "scalar", "additive", "general"):
+        for sde_type in ("ito", "stratonovich"):
+            ms = (["euler"] if sde_type == "ito" else []) + ([] if nt == "general" else ["milstein", "milstein+grad_free"])
+            for method in ms:
+                idx += 1
+                rnd = random.Random(seed * 8009 + idx)
+                spec = {"sde_type": sde_type, "noise_type": nt, "d": 2, "m": 2 if nt in ("diagonal", "additive", "general")
+                        else 1, "batch": 2, "hidden": 3, "seed": rnd.randrange(2 ** 31), "tdep": True, "fscale": 1.0,
+                        "gscale": 0.7, "dtype": "float64", "gstored": True}
+                yield {"kind": "exact", "spec": spec, "method": method, "h": 0.1, "t0": 0.3, "seed": rnd.randrange(2 ** 31)}
 
 
 def run_case(case):
@@ -245,16 +267,24 @@ def _run_exact(case):
     dW = torch.randn(B, m, generator=gen, dtype=torch.float64) * math.sqrt(h)
     t0 = torch.tensor(case["t0"], dtype=torch.float64)
     stub = brownian_tools.make_stub((B, m), torch.float64, "none", lambda ta, tb: (dW, None, None))
-    cls = methods.select(case["method"], spec["sde_type"])
+    mname = case["method"].split("+")[0]
+    cls = methods.select(mname, spec["sde_type"])
     solver = cls(sde=base_sde.ForwardSDE(sde), bm=stub, dt=0.37, adaptive=False, rtol=1e-3, atol=1e-3, dt_min=1e-5,
-                 options={})
+                 options={"grad_free": True} if case["method"].endswith("+grad_free") else {})
+    gbuf_before = sde.gbuf.clone()
     with torch.no_grad():
         y1, _ = solver.step(t0, t0 + h, y0, ())
+        y1b, _ = solver.step(t0, t0 + h, y0, ())          # the same step again: a step must not change the SDE it is given
         f = sde.f(t0, y0)
-        g = sde.g(t0, y0)
+        g = gbuf_before if spec.get("gstored") else sde.g(t0, y0)
+    if spec.get("gstored") and (not torch.equal(sde.gbuf, gbuf_before) or not torch.equal(y1, y1b)):
+        return Result(nontrivial=True, checks=1, fail=Fail(
+            "sde_state_modified", f"{spec['sde_type']}/{nt}/{case['method']}: the step overwrote the tensor returned by the "
+                                  f"SDE's g (or gave another result when repeated)",
+            {"sde_type": spec["sde_type"], "noise_type": nt, "method": case["method"], "kind": "exact"}))
     G = torch.diag_embed(g) if nt == "diagonal" else g
     want = y0 + f * h + torch.einsum("bil,bl->bi", G, dW)
-    if case["method"] == "milstein":
+    if case["method"] == "milstein" and not spec.get("gstored"):
         from .c16 import _jac_g
         J = _jac_g(sde, t0, y0)                                    # (B, d, m, d)
         v = dW ** 2 - h if ito else dW ** 2
